@@ -36,7 +36,8 @@ theorem st_setv (s : St) (v w : Nat) (x : VS) : (s.setv v x).st w = if v = w the
 @[simp] theorem crash_setv (s : St) (v : Nat) (x : VS) : (s.setv v x).crash = s.crash := rfl
 @[simp] theorem failed_setv (s : St) (v : Nat) (x : VS) : (s.setv v x).failed = s.failed := rfl
 @[simp] theorem dirty_setv (s : St) (v : Nat) (x : VS) : (s.setv v x).dirty = s.dirty := rfl
-@[simp] theorem vfy_setv (s : St) (v : Nat) (x : VS) : (s.setv v x).vfy = s.vfy := rfl
+@[simp] theorem vst_setv (s : St) (v : Nat) (x : VS) : (s.setv v x).vst = s.vst := rfl
+@[simp] theorem codeV_setv (s : St) (v : Nat) (x : VS) : (s.setv v x).codeV = s.codeV := rfl
 @[simp] theorem early_setv (s : St) (v : Nat) (x : VS) : (s.setv v x).early = s.early := rfl
 
 theorem getAt_of_all (l : List VS) (h : l.all (fun x => x != .live) = true) :
@@ -115,8 +116,8 @@ theorem live_step {s : St} {v : Nat} (hl : s.st v = .live) (e : Ev) (hne : e ≠
     | free w => simp only [Ev.var?, Option.some.injEq] at hv; subst hv; right; simp [St.apply, hil]
     | setnull w => simp only [Ev.var?, Option.some.injEq] at hv; subst hv; right; simp [St.apply, hil]
     | setunk w => simp only [Ev.var?, Option.some.injEq] at hv; subst hv; right; simp [St.apply, hil]
-    | use w | call w | wr w | zero w | code w | resizeKeep w => simp [Ev.var?] at hv
-    | vfy => simp [Ev.var?] at hv
+    | use w | call w | wr w | zero w | code w | resizeKeep w | calleeFail w | cls w => simp [Ev.var?] at hv
+    | test c | vcall c | vres c => simp [Ev.var?] at hv
   · left; rw [st_apply_of_ne s e v hv]; exact hl
 
 /-- an open blob is closed later on any path that ends unflagged with nothing open, and no
@@ -208,8 +209,8 @@ theorem null_step {s : St} {v : Nat} (hn : s.st v = .null) (e : Ev) (hne : ¬ Is
     | free w =>
       simp only [Ev.var?, Option.some.injEq] at hv; subst hv
       simp only [St.apply, St.isLive, hn]; exact hn
-    | use w | call w | wr w | zero w | code w | resizeKeep w => simp [Ev.var?] at hv
-    | vfy => simp [Ev.var?] at hv
+    | use w | call w | wr w | zero w | code w | resizeKeep w | calleeFail w | cls w => simp [Ev.var?] at hv
+    | test c | vcall c | vres c => simp [Ev.var?] at hv
   · rw [st_apply_of_ne s e v hv]; exact hn
 
 theorem null_pending (tr : List Ev) : ∀ (s : St) (v : Nat), s.st v = .null →
@@ -263,7 +264,8 @@ theorem noNullUse_of_fold (tr : List Ev) : ∀ s : St,
         exact ⟨k + 1, by omega, by omega, e', by simpa using he', hr⟩
 
 /-- the events by which an allocation fails -/
-def IsAllocFailure (e : Ev) : Prop := ∃ v, e = .allocFail v ∨ e = .resizeFail v ∨ e = .resizeKeep v
+def IsAllocFailure (e : Ev) : Prop :=
+  ∃ v, e = .allocFail v ∨ e = .resizeFail v ∨ e = .resizeKeep v ∨ e = .calleeFail v
 
 theorem failed_of_mem (tr : List Ev) : ∀ (s : St),
     (∃ e ∈ tr, IsAllocFailure e) → (tr.foldl St.apply s).failed = true := by
@@ -273,7 +275,7 @@ theorem failed_of_mem (tr : List Ev) : ∀ (s : St),
     intro s h
     by_cases he : IsAllocFailure e
     · have : (s.apply e).failed = true := by
-        obtain ⟨v, rfl | rfl | rfl⟩ := he <;> simp [St.apply]
+        obtain ⟨v, rfl | rfl | rfl | rfl⟩ := he <;> simp [St.apply]
       exact failed_fold t _ this
     · apply ih (s.apply e)
       obtain ⟨e', hm, hf⟩ := h
@@ -349,68 +351,175 @@ theorem early_fold (d : Nat) (tr : List Ev) : ∀ s : St, s.isEarly d = true →
   | nil => intro s h; exact h
   | cons e t ih => intro s h; exact ih _ (early_step d e h)
 
-theorem vfy_step {s : St} (e : Ev) (h : s.vfy = false) (he : e ≠ .vfy) : (s.apply e).vfy = false := by
-  cases e <;> simp only [St.apply]
-  case close w => split <;> simpa [St.setv] using h
-  case free w => split <;> simpa [St.setv] using h
-  case vfy => exact absurd rfl he
-  all_goals simpa [St.setv] using h
+/-- The authentication automaton read off the bare trace (no monitor state): after a verification
+call the state is `pending`; it becomes `passed`/`failed` when the result of THAT call is tested — at
+once (`vres`) or, if the call assigned `code`, by the next test of `code` (`test`) provided `code` was
+not assigned in between (an assignment loses the result: `failed`). -/
+structure VA where
+  st : VSt := .none
+  codeV : Bool := false
 
-/-- **C09 path property (verify before release)**: if the path calls a verification routine at
-all, every write to output `d` comes after the first such call. -/
-def VerifyFirst (d : Nat) (tr : List Ev) : Prop :=
-  Ev.vfy ∈ tr → ∀ j : Nat, tr[j]? = some (Ev.wr d) → ∃ i : Nat, i < j ∧ tr[i]? = some Ev.vfy
+def VA.step (a : VA) : Ev → VA
+  | .vcall toCode => ⟨.pending, toCode⟩
+  | .vres okv => ⟨if !a.codeV && a.st == .pending then (if okv then .passed else .failed) else a.st, a.codeV⟩
+  | .test c => ⟨if a.codeV && a.st == .pending then (if c = .ok then .passed else .failed) else a.st, a.codeV⟩
+  | .code _ => ⟨if a.codeV && a.st == .pending then .failed else a.st, false⟩
+  | _ => a
 
-theorem verifyFirst_of_fold (d : Nat) (tr : List Ev) : ∀ s : St, s.vfy = false →
-    (tr.foldl St.apply s).isEarly d = false → VerifyFirst d tr := by
-  unfold VerifyFirst
+def vstate (tr : List Ev) : VSt := (tr.foldl VA.step {}).st
+
+def St.va (s : St) : VA := ⟨s.vst, s.codeV⟩
+
+theorem va_apply (s : St) (e : Ev) : (s.apply e).va = s.va.step e := by
+  cases e <;> simp only [St.apply, St.va, VA.step]
+  case close w => split <;> rfl
+  case free w => split <;> rfl
+  all_goals rfl
+
+theorem va_fold (tr : List Ev) : ∀ s : St, (tr.foldl St.apply s).va = tr.foldl VA.step s.va := by
   induction tr with
-  | nil => intro s _ _ h; simp at h
+  | nil => intro s; rfl
+  | cons e t ih => intro s; simp only [List.foldl_cons]; rw [ih, va_apply]
+
+/-- **C09 path property (verify before release, result tested)**: if the path calls a verification
+routine at all, then at every write to output `d` the authentication automaton is in state
+`passed`: a verification call precedes the write, its result has been tested, the test said
+success, and no later verification call is pending or failed. -/
+def VerifyFirst (d : Nat) (tr : List Ev) : Prop :=
+  (∃ b, Ev.vcall b ∈ tr) → ∀ pre post, tr = pre ++ Ev.wr d :: post → vstate pre = .passed
+
+theorem early_of_write {s : St} (d : Nat) (h : s.vst ≠ .passed) : (s.apply (.wr d)).isEarly d = true := by
+  simp [St.apply, St.isEarly, h, getAt_setAt]
+
+theorem written_passed (d : Nat) (tr : List Ev) : ∀ s : St,
+    (tr.foldl St.apply s).isEarly d = false →
+    ∀ pre post, tr = pre ++ Ev.wr d :: post → (pre.foldl St.apply s).vst = .passed := by
+  induction tr with
+  | nil => intro s _ pre post h; simp at h
   | cons e t ih =>
-    intro s hv he hmem j hj
-    by_cases hev : e = .vfy
-    · cases j with
-      | zero => simp [hev] at hj
-      | succ j => exact ⟨0, by omega, by simp [hev]⟩
-    · cases j with
-      | zero =>
-        simp only [List.getElem?_cons_zero, Option.some.injEq] at hj
-        subst hj
-        have : (s.apply (.wr d)).isEarly d = true := by
-          simp [St.apply, St.isEarly, hv, getAt_setAt]
-        have := early_fold d t _ this
+    intro s he pre post h
+    cases pre with
+    | nil =>
+      simp only [List.nil_append, List.cons.injEq] at h
+      obtain ⟨rfl, rfl⟩ := h
+      by_cases hp : s.vst = .passed
+      · simpa using hp
+      · have := early_fold d t _ (early_of_write d hp)
         simp only [List.foldl_cons] at he
         rw [this] at he
         cases he
-      | succ j =>
-        have hmem' : Ev.vfy ∈ t := by
-          rcases List.mem_cons.mp hmem with h | h
-          · exact absurd h.symm hev
-          · exact h
-        obtain ⟨i, hi, hiv⟩ := ih (s.apply e) (vfy_step e hv hev) he hmem' j (by simpa using hj)
-        exact ⟨i + 1, by omega, by simpa using hiv⟩
+    | cons e' pre' =>
+      simp only [List.cons_append, List.cons.injEq] at h
+      obtain ⟨rfl, rfl⟩ := h
+      simpa using ih (s.apply e) he pre' post rfl
 
-theorem vfy_of_mem (tr : List Ev) : ∀ s : St, Ev.vfy ∈ tr → (tr.foldl St.apply s).vfy = true := by
+theorem vst_ne_none_step {s : St} (e : Ev) (h : s.vst ≠ .none) : (s.apply e).vst ≠ .none := by
+  cases e <;> simp only [St.apply]
+  case close w => split <;> simpa [St.setv] using h
+  case free w => split <;> simpa [St.setv] using h
+  case code c => split <;> simp_all
+  case test c =>
+    split
+    · split <;> simp
+    · exact h
+  case vcall b => simp
+  case vres b =>
+    split
+    · split <;> simp
+    · exact h
+  all_goals simpa [St.setv] using h
+
+theorem vst_of_mem (tr : List Ev) : ∀ s : St, (∃ b, Ev.vcall b ∈ tr) →
+    (tr.foldl St.apply s).vst ≠ .none := by
   induction tr with
   | nil => intro s h; simp at h
   | cons e t ih =>
     intro s h
-    by_cases hev : e = .vfy
-    · subst hev
-      have : ∀ (t : List Ev) (s : St), s.vfy = true → (t.foldl St.apply s).vfy = true := by
-        intro t
-        induction t with
-        | nil => intro s h; exact h
-        | cons e t ih =>
-          intro s h
-          apply ih
-          cases e <;> simp only [St.apply]
-          case close w => split <;> simpa [St.setv] using h
-          case free w => split <;> simpa [St.setv] using h
-          all_goals simpa [St.setv] using h
-      exact this t _ (by simp [St.apply])
-    · rcases List.mem_cons.mp h with h | h
-      · exact absurd h.symm hev
-      · exact ih _ h
+    have keep : ∀ (t : List Ev) (s : St), s.vst ≠ .none → (t.foldl St.apply s).vst ≠ .none := by
+      intro t
+      induction t with
+      | nil => intro s h; exact h
+      | cons e t ih => intro s h; exact ih _ (vst_ne_none_step e h)
+    obtain ⟨b, hb⟩ := h
+    rcases List.mem_cons.mp hb with rfl | hb
+    · exact keep t _ (by simp [St.apply])
+    · exact ih _ ⟨b, hb⟩
+
+theorem verifyFirst_of_fold (d : Nat) (tr : List Ev)
+    (h : (tr.foldl St.apply St.init).vst = .none ∨ (tr.foldl St.apply St.init).isEarly d = false) :
+    VerifyFirst d tr := by
+  intro hv pre post htr
+  rcases h with h | h
+  · exact absurd h (vst_of_mem tr St.init hv)
+  · have := written_passed d tr St.init h pre post htr
+    have hva := va_fold pre St.init
+    unfold vstate
+    have : (pre.foldl St.apply St.init).va.st = .passed := this
+    rw [hva] at this
+    exact this
+
+/-! #### the events of a path are events of the skeleton -/
+
+theorem exec_events {c : Cfg} {s s' : St} {tr : List Ev} {o : Out} (hx : Exec c s tr s' o) :
+    ∀ e ∈ tr, e ∈ c.events ∨ ∃ x, e = .test x := by
+  induction hx with
+  | skip | brk | cont | ret => intro e he; simp at he
+  | atom hm => intro e he; simp only [List.mem_singleton] at he; subst he; exact Or.inl (by simpa [Cfg.events] using hm)
+  | seqN _ _ ih1 ih2 =>
+    intro e he
+    rcases List.mem_append.mp he with h | h
+    · rcases ih1 e h with h | h
+      · exact Or.inl (by simp [Cfg.events, h])
+      · exact Or.inr h
+    · rcases ih2 e h with h | h
+      · exact Or.inl (by simp [Cfg.events, h])
+      · exact Or.inr h
+  | seqX _ _ ih =>
+    intro e he
+    rcases ih e he with h | h
+    · exact Or.inl (by simp [Cfg.events, h])
+    · exact Or.inr h
+  | iteT _ ih | ifnullT _ _ _ ih =>
+    intro e he
+    rcases ih e he with h | h
+    · exact Or.inl (by simp [Cfg.events, h])
+    · exact Or.inr h
+  | iteF _ ih | ifnullF _ _ ih =>
+    intro e he
+    rcases ih e he with h | h
+    · exact Or.inl (by simp [Cfg.events, h])
+    · exact Or.inr h
+  | ifcodeT _ _ ih =>
+    intro e he
+    rcases List.mem_cons.mp he with rfl | h
+    · exact Or.inr ⟨_, rfl⟩
+    · rcases ih e h with h | h
+      · exact Or.inl (by simp [Cfg.events, h])
+      · exact Or.inr h
+  | ifcodeF _ _ ih =>
+    intro e he
+    rcases List.mem_cons.mp he with rfl | h
+    · exact Or.inr ⟨_, rfl⟩
+    · rcases ih e h with h | h
+      · exact Or.inl (by simp [Cfg.events, h])
+      · exact Or.inr h
+  | loopStop => intro e he; simp at he
+  | loopStep _ _ _ ih1 ih2 =>
+    intro e he
+    rcases List.mem_append.mp he with h | h
+    · rcases ih1 e h with h | h
+      · exact Or.inl (by simpa [Cfg.events] using h)
+      · exact Or.inr h
+    · exact ih2 e h
+  | loopBrk _ ih | loopRet _ ih =>
+    intro e he
+    rcases ih e he with h | h
+    · exact Or.inl (by simpa [Cfg.events] using h)
+    · exact Or.inr h
+  | blk _ ih =>
+    intro e he
+    rcases ih e he with h | h
+    · exact Or.inl (by simpa [Cfg.events] using h)
+    · exact Or.inr h
 
 end Bee2V.C15
